@@ -17,3 +17,4 @@ def check(ctx, prog):
     dispatch.rule_swallowed_raise(ctx, prog)
     dispatch.rule_mode_sort(ctx, prog)
     dispatch.rule_sentinel_store(ctx, prog)
+    model.rule_problem_readonly(ctx, prog)
